@@ -364,7 +364,7 @@ func (fc *fnCtx) external(st *State, fr *frame, site, key string, resT []types.T
 
 var noPanicExternals = map[string]bool{
 	"fmt.Sprintf": true, "fmt.Sprint": true, "reflect.TypeOf": true, "reflect.ValueOf": true,
-	"strings.HasPrefix": true, "strings.Contains": true, "strings.Count": true, "strings.Split": true, "strings.TrimPrefix": true, "strings.Index": true,
+	"strings.HasPrefix": true, "strings.Cut": true, "strings.TrimLeft": true, "strings.Contains": true, "strings.Count": true, "strings.Split": true, "strings.TrimPrefix": true, "strings.Index": true,
 	"(*strings.Builder).WriteString": true, "(*strings.Builder).String": true, "(*strings.Builder).Reset": true,
 	"strconv.FormatBool": true, "strconv.FormatInt": true, "strconv.FormatUint": true, "strconv.FormatFloat": true, "strconv.Quote": true, "strconv.QuoteRune": true,
 	"strconv.ParseBool": true, "strconv.ParseInt": true, "strconv.ParseUint": true, "strconv.ParseFloat": true, "strconv.ParseComplex": true, "strconv.Unquote": true,
